@@ -76,6 +76,34 @@ def toBlob (t0 : RawTree) (cfg : Config) (nm : NameMapper) (hm : HierarchyMapper
     nRunners := nRunners
     results := out.map (toRecord t0.hierarchy) }
 
+/-- the tree `backfill_assignments` reads (D: `RawTree.dropCells`) is the tree
+embedded in the output (I: `Output.Tree.dropCells`), when the level keys of
+the dict are distinct (a Python dict) -/
+theorem toTree_dropCells (t : RawTree) (nm : NameMapper) (hm : HierarchyMapper)
+    (hk : (t.levels.map (·.1)).Nodup) :
+    toTree t.dropCells nm hm = (toTree t nm hm).dropCells := by
+  unfold RawTree.dropCells Output.Tree.dropCells
+  cases hl : t.leafLevel with
+  | none =>
+    have h0 : (toTree t nm hm).leafLevel = none := hl
+    simp only [h0]
+    simp [toTree]
+  | some ll =>
+    have h1 : t.hierarchy.getLast? = some ll := hl
+    simp only [toTree, RawTree.setLevel]
+    congr 1
+    apply List.map_congr_left
+    intro kv hkv
+    obtain ⟨k, v⟩ := kv
+    by_cases he : k = ll
+    · subst he
+      have hv : t.level k = v := by
+        simp only [RawTree.level, lookup_of_mem_nodup t.levels k v hk hkv, Option.getD_some]
+      simp [hv, h1, Output.Tree.leafLevel]
+    · have hb : (k == ll) = false := by simpa using he
+      have hne : ¬ (some k = some ll) := fun h => he (Option.some.inj h)
+      simp [hb, hne, h1, Output.Tree.leafLevel]
+
 /-! ## what the oracle must guarantee about its payload -/
 
 /-- one vote, asked about a parent whose children are `kids`: the correlation
